@@ -244,7 +244,40 @@ pub fn perturb_case(files1: &Files, files2: &Files, target: &str, how: &str) -> 
     let r = catch_unwind(AssertUnwindSafe(|| {
         let (s1, o1) = validate_sorted(files1);
         let (s2, o2) = validate_sorted(files2);
-        Json::obj(vec![("outcome", Json::s("ok")), ("stage1_a", s1), ("out_a", o1), ("stage1_b", s2), ("out_b", o2)])
+        // the target parsed alone, by a parser that never held anything else (on another thread: no thread-local
+        // left-overs either): the syntax stage of a file depends on its text alone
+        let solo = match files1.iter().find(|f| f.0 == target) {
+            Some((id, text)) => {
+                let (id, text) = (id.clone(), text.clone());
+                std::thread::spawn(move || {
+                    let mut q: Parser<String> = Parser::new();
+                    q.add_content(id, &text);
+                    dump::results(q.verif_parse_results())
+                })
+                .join()
+                .unwrap()
+            }
+            None => Json::Null,
+        };
+        // the contents of project A reached through a history on one parser: same answers
+        let mut h: u64 = 0xcbf29ce484222325;
+        for (id, t) in files1 {
+            for b in id.bytes().chain(t.bytes()) {
+                h = (h ^ b as u64).wrapping_mul(0x100000001b3);
+            }
+        }
+        let (s1h, o1h, hops) = crate::suites::through_history(files1, h);
+        let history_same = s1h == s1 && o1h == o1;
+        Json::obj(vec![
+            ("outcome", Json::s("ok")),
+            ("stage1_a", s1),
+            ("out_a", o1),
+            ("stage1_b", s2),
+            ("out_b", o2),
+            ("solo", solo),
+            ("history_same", Json::Bool(history_same)),
+            ("history_ops", if history_same { Json::Null } else { hops }),
+        ])
     }));
     let imp = match r {
         Ok(j) => j,
